@@ -239,31 +239,55 @@ func (iv *Intervals) refine(base Interval, v ssa.Value, g Guard) Interval {
 		if !iv.same(k.X, v) {
 			continue
 		}
-		// value of the other side at the branch itself
-		o := iv.At(k.Y, g.If)
-		switch k.Op {
-		case token.EQL:
-			base = base.Meet(o)
-		case token.LSS:
-			base = base.Meet(Interval{NegInf, sadd(o.Hi, -1)})
-		case token.LEQ:
-			base = base.Meet(Interval{NegInf, o.Hi})
-		case token.GTR:
-			base = base.Meet(Interval{sadd(o.Lo, 1), PosInf})
-		case token.GEQ:
-			base = base.Meet(Interval{o.Lo, PosInf})
-		case token.NEQ:
-			if o.Lo == o.Hi {
-				if base.Lo == o.Lo {
-					base.Lo = sadd(base.Lo, 1)
-				} else if base.Hi == o.Lo {
-					base.Hi = sadd(base.Hi, -1)
-				}
+		base = iv.refineCmp(base, k, g.If)
+	}
+	return base
+}
+
+// refineCmp narrows base (the interval of k.X) by "k.X op k.Y".
+func (iv *Intervals) refineCmp(base Interval, k Cmp, at ssa.Instruction) Interval {
+	// value of the other side at the branch itself
+	o := iv.At(k.Y, at)
+	switch k.Op {
+	case token.EQL:
+		base = base.Meet(o)
+	case token.LSS:
+		base = base.Meet(Interval{NegInf, sadd(o.Hi, -1)})
+	case token.LEQ:
+		base = base.Meet(Interval{NegInf, o.Hi})
+	case token.GTR:
+		base = base.Meet(Interval{sadd(o.Lo, 1), PosInf})
+	case token.GEQ:
+		base = base.Meet(Interval{o.Lo, PosInf})
+	case token.NEQ:
+		if o.Lo == o.Hi {
+			if base.Lo == o.Lo {
+				base.Lo = sadd(base.Lo, 1)
+			} else if base.Hi == o.Lo {
+				base.Hi = sadd(base.Hi, -1)
 			}
 		}
 	}
 	return base
 }
+
+// refineLen narrows the interval of len(x) by the guard edge g if it compares
+// a len() of the same slice value.
+func (iv *Intervals) refineLen(base Interval, x ssa.Value, g Guard) Interval {
+	c := g.Cmp()
+	for _, k := range []Cmp{c, c.Swap()} {
+		v := stripConv(k.X)
+		call, ok := v.(*ssa.Call)
+		if !ok || CalleeID(call.Common()) != "builtin.len" || !iv.same(call.Common().Args[0], x) {
+			continue
+		}
+		base = iv.refineCmp(base, k, g.If)
+	}
+	return base
+}
+
+// LenOf is the interval of len(x) at the given point.
+func (iv *Intervals) LenOf(x ssa.Value, at ssa.Instruction) Interval { return iv.lenOf(x, at, false) }
 
 func fits(i Interval, t types.Type) bool {
 	r := TypeRange(t)
@@ -415,6 +439,16 @@ func (iv *Intervals) def(v ssa.Value, at ssa.Instruction) Interval {
 }
 
 func (iv *Intervals) lenOf(s ssa.Value, at ssa.Instruction, isCap bool) Interval {
+	base := iv.lenDef(s, at, isCap)
+	if at != nil && !isCap {
+		for _, g := range iv.guardsOf(at) {
+			base = iv.refineLen(base, s, g)
+		}
+	}
+	return base
+}
+
+func (iv *Intervals) lenDef(s ssa.Value, at ssa.Instruction, isCap bool) Interval {
 	nonneg := Interval{0, PosInf}
 	switch x := s.(type) {
 	case *ssa.Const:
@@ -451,6 +485,34 @@ func (iv *Intervals) lenOf(s ssa.Value, at ssa.Instruction, isCap bool) Interval
 		return iv.lenOf(x.X, at, isCap)
 	case *ssa.ChangeType:
 		return iv.lenOf(x.X, at, isCap)
+	case *ssa.Phi:
+		if iv.inprog[x] || isCap {
+			return nonneg
+		}
+		iv.inprog[x] = true
+		defer delete(iv.inprog, x)
+		res := Interval{1, 0}
+		for k, e := range x.Edges {
+			pred := x.Block().Preds[k]
+			last := pred.Instrs[len(pred.Instrs)-1]
+			ei := iv.lenOf(e, last, false)
+			if iff, ok := last.(*ssa.If); ok && pred.Succs[0] != pred.Succs[1] {
+				ei = iv.refineLen(ei, e, Guard{If: iff, Branch: pred.Succs[0] == x.Block()})
+			}
+			res = res.Join(ei)
+		}
+		if res.Empty() {
+			return nonneg
+		}
+		return res.Meet(nonneg)
+	case *ssa.UnOp:
+		if x.Op == token.MUL {
+			if a, ok := x.X.(*ssa.Alloc); ok {
+				if st := singleStore(a); st != nil {
+					return iv.lenOf(st, at, isCap)
+				}
+			}
+		}
 	}
 	if n, ok := arrayLen(s.Type()); ok {
 		return Interval{n, n}
